@@ -447,7 +447,7 @@ func checkSilenceLimitsBeforeMutation(o *Ob, f *silSetFacts) {
 	e := o.E
 	fn := f.fn
 	noLimit := L("(recv.limits.MaxSilences == nil)", true)
-	limOff := L("(0 < dyn(fn=recv.limits.MaxSilences))", false)
+	limOff := L("(dyn(fn=recv.limits.MaxSilences) < 1)", true)
 	fits := L("(len(recv.st) < dyn(fn=recv.limits.MaxSilences))", true)
 	o.Check(e.CountLitEdges(fn, fits)+e.CountLitEdges(fn, fits.Neg()) > 0, "count-check", "Set no longer rejects when len(st)+1 exceeds the silence count limit", nil)
 	for _, m := range append(append([]ssa.CallInstruction{}, f.expCalls...), f.setCalls...) {
